@@ -51,8 +51,12 @@ RefStep(c, b, pos) ==      \* pos = index of b (1-based) = bytes consumed after 
          ELSE IF b = BS \/ b = DQ THEN [c EXCEPT !.esc = FALSE, !.cur = Append(@, b)]
          ELSE [c EXCEPT !.esc = FALSE, !.cur = Append(Append(@, BS), b)]
 
-RECURSIVE RefRun(_, _, _)
-RefRun(c, s, i) == IF i > Len(s) THEN c ELSE RefRun(RefStep(c, s[i], i), s, i + 1)
+RECURSIVE RefSpan(_, _, _, _)      \* fold by halving, see EvFSpan
+RefSpan(c, s, lo, hi) ==
+  IF lo > hi THEN c
+  ELSE IF lo = hi THEN RefStep(c, s[lo], lo)
+  ELSE LET mid == (lo + hi) \div 2 IN RefSpan(RefSpan(c, s, lo, mid), s, mid + 1, hi)
+RefRun(c, s, i) == RefSpan(c, s, i, Len(s))
 
 RefComplete(c) == c.mode = "U" /\ ~c.esc
 RefPending(c) == c.inword \/ ~RefComplete(c)       \* a final (possibly partial) token exists
@@ -86,8 +90,12 @@ TabStep(c, b, pos) ==
         [] act = "xpush" -> [c1 EXCEPT !.cur = Append(Append(@, BS), b)]
         [] act = "emit" -> [c1 EXCEPT !.toks = Append(@, c.cur), !.ends = Append(@, pos), !.cur = <<>>]
         [] act = "drop" -> c1
-RECURSIVE TabRun(_, _, _)
-TabRun(c, s, i) == IF i > Len(s) THEN c ELSE TabRun(TabStep(c, s[i], i), s, i + 1)
+RECURSIVE TabSpan(_, _, _, _)
+TabSpan(c, s, lo, hi) ==
+  IF lo > hi THEN c
+  ELSE IF lo = hi THEN TabStep(c, s[lo], lo)
+  ELSE LET mid == (lo + hi) \div 2 IN TabSpan(TabSpan(c, s, lo, mid), s, mid + 1, hi)
+TabRun(c, s, i) == TabSpan(c, s, i, Len(s))
 TabLex(s) ==
   LET c == TabRun(Tab0, s, 1)
       pending == c.st # "stBreak"
@@ -126,13 +134,63 @@ EvStep(c, b) ==
          IF b = NL THEN [c EXCEPT !.esc = FALSE]
          ELSE IF b \in {BS, DQ, 36, 96} THEN [c EXCEPT !.esc = FALSE, !.cur = Append(@, b)]
          ELSE [c EXCEPT !.esc = FALSE, !.cur = Append(Append(@, BS), b)]
-RECURSIVE EvRun(_, _, _)
-EvRun(c, s, i) == IF i > Len(s) THEN c ELSE EvRun(EvStep(c, s[i]), s, i + 1)
+RECURSIVE EvSpan(_, _, _, _)
+EvSpan(c, s, lo, hi) ==
+  IF lo > hi THEN c
+  ELSE IF lo = hi THEN EvStep(c, s[lo])
+  ELSE LET mid == (lo + hi) \div 2 IN EvSpan(EvSpan(c, s, lo, mid), s, mid + 1, hi)
+EvRun(c, s, i) == EvSpan(c, s, i, Len(s))
 Eval(s) ==
   LET c == EvRun(Ev0, s, 1)
   IN  [words |-> IF c.inword THEN Append(c.words, c.cur) ELSE c.words,
        exposed |-> c.exposed,
        closed |-> c.mode = "U" /\ ~c.esc]
+
+(* EvalF: the same evaluation in time linear in the text for TLC (Eval appends byte by   *)
+(* byte, which copies the word every time).  A word under construction is a sequence of *)
+(* index ranges <<from, to>> into the text; literal bytes extend the last range when     *)
+(* adjacent.  QuoteMC checks EvalF = Eval on every text of its space.                    *)
+Lit(c, i) ==          \* the byte at index i joins the current word
+  LET n == Len(c.segs)
+  IN  IF n > 0 /\ c.segs[n][2] = i - 1 THEN [c EXCEPT !.segs[n] = <<c.segs[n][1], i>>, !.inword = TRUE]
+      ELSE [c EXCEPT !.segs = Append(@, <<i, i>>), !.inword = TRUE]
+Lit2(c, i) ==         \* the bytes at i-1 and i (a backslash that stays, and its successor)
+  Lit(Lit(c, i - 1), i)
+EvF0 == [mode |-> "U", esc |-> FALSE, inword |-> FALSE, segs |-> <<>>, words |-> <<>>, exposed |-> {}]
+EvFStep(c, b, i) ==
+  CASE c.mode = "U" /\ ~c.esc ->
+         IF IsBlank(b) \/ b = NL
+           THEN IF c.inword THEN [c EXCEPT !.words = Append(@, c.segs), !.segs = <<>>, !.inword = FALSE] ELSE c
+         ELSE IF b = BS THEN [c EXCEPT !.esc = TRUE]
+         ELSE IF b = SQ THEN [c EXCEPT !.mode = "S", !.inword = TRUE]
+         ELSE IF b = DQ THEN [c EXCEPT !.mode = "D", !.inword = TRUE]
+         ELSE [Lit(c, i) EXCEPT !.exposed = IF b \in Special THEN @ \cup {b} ELSE @]
+    [] c.mode = "U" /\ c.esc ->
+         IF b = NL THEN [c EXCEPT !.esc = FALSE] ELSE [Lit(c, i) EXCEPT !.esc = FALSE]
+    [] c.mode = "S" ->
+         IF b = SQ THEN [c EXCEPT !.mode = "U"] ELSE Lit(c, i)
+    [] c.mode = "D" /\ ~c.esc ->
+         IF b = DQ THEN [c EXCEPT !.mode = "U"]
+         ELSE IF b = BS THEN [c EXCEPT !.esc = TRUE]
+         ELSE [Lit(c, i) EXCEPT !.exposed = IF b \in {36, 96} THEN @ \cup {b} ELSE @]
+    [] c.mode = "D" /\ c.esc ->
+         IF b = NL THEN [c EXCEPT !.esc = FALSE]
+         ELSE IF b \in {BS, DQ, 36, 96} THEN [Lit(c, i) EXCEPT !.esc = FALSE]
+         ELSE [Lit2(c, i) EXCEPT !.esc = FALSE]
+\* Folds over a text are written by halving (recursion depth log2 n): in TLC a linear recursion
+\* as deep as the text makes every garbage collection scan a huge stack - quadratic time.
+RECURSIVE EvFSpan(_, _, _, _)
+EvFSpan(c, s, lo, hi) ==
+  IF lo > hi THEN c
+  ELSE IF lo = hi THEN EvFStep(c, s[lo], lo)
+  ELSE LET mid == (lo + hi) \div 2 IN EvFSpan(EvFSpan(c, s, lo, mid), s, mid + 1, hi)
+EvFRun(c, s, i) == EvFSpan(c, s, i, Len(s))
+RECURSIVE Glue(_, _, _)
+Glue(s, segs, k) == IF k > Len(segs) THEN <<>> ELSE SubSeq(s, segs[k][1], segs[k][2]) \o Glue(s, segs, k + 1)
+EvalF(s) ==
+  LET c == EvFRun(EvF0, s, 1)
+      ws == IF c.inword THEN Append(c.words, c.segs) ELSE c.words
+  IN  [words |-> [k \in DOMAIN ws |-> Glue(s, ws[k], 1)], exposed |-> c.exposed, closed |-> c.mode = "U" /\ ~c.esc]
 
 \* Quote(s) = q is correct iff a shell evaluating q as one command word obtains
 \* exactly s, with no special byte left unquoted
